@@ -37,6 +37,10 @@ def triples():
         (bytes(range(64)), f("c06/k7", 32), b"\xff" * 32),
         (f("c06/t8", 64), b"\x00" * 31 + b"\x01", f("c06/n8", 32)),
         (f("c06/t9", 64), f("c06/k9", 32), f("c06/n9", 32)),
+        # credentials whose first / last bytes are ASCII white space or other "text-like" values
+        (b"\x20" + f("c06/t10", 62) + b"\x0a", b"\x09" + f("c06/k10", 30) + b"\x0d", b"\x20" * 32),
+        (b"\x0b" * 64, b"\x20" * 31 + b"\x0c", f("c06/n11", 32)),
+        (b"0" + f("c06/t12", 62) + b"\x00", b"\x00" + f("c06/k12", 30) + b"\x20", b"\x0a" * 32),
     ]
 
 
@@ -51,17 +55,17 @@ def faults():
 
 
 def bounds(tier):
-    return {"triples": len(triples()) if tier == "thorough" else 3, "faults_per_triple": len(faults()),
+    return {"triples": len(triples()), "faults_per_triple": str(len(faults())) + (" (first 3 triples; a 1/23 slice + genuine for the others)" if tier != "thorough" else ""),
             "key_forms": 2, "scenarios": ["fresh", "after-previous-auth", "same credentials, authentication expired"]}
 
 
 def shards(tier):
-    nt = len(triples()) if tier == "thorough" else 3
+    nt = len(triples())
     out = []
     for t in range(nt):
         for form in (0, 1):
             for scen in (0, 1, 2):
-                out.append((t, form, scen))
+                out.append((t, form, scen, t >= 3 and tier != "thorough"))
     return out
 
 
@@ -206,10 +210,14 @@ def judge(st: Stats, case, obs, dev, marks, tidx, scen, fault):
 
 
 def run_shard(shard, tier) -> Stats:
-    tidx, form, scen = shard
+    tidx, form, scen, light = shard
     st = Stats()
     det = Determinism(first=3, every=211)
-    for fault in faults():
+    fl = faults()
+    if light:
+        # quick tier: for the extra credential triples run the genuine reply and a thin slice of the faults
+        fl = [f for i, f in enumerate(fl) if f[0] == "genuine" or i % 23 == tidx % 23]
+    for fault in fl:
         case = {"triple": tidx, "form": form, "scenario": scen, "fault": list(fault)}
         obs, dev, marks = execute(tidx, form, scen, fault)
         if det.due():
